@@ -89,13 +89,22 @@ TapeSegs(blocks, fe, gpol) == << <<0, fe, "w">> >> \o SegsFrom(blocks, 1, gpol %
 
 \* Named deviation (SkoolKit): when nothing but silence at an unchanged level follows the last tail
 \* pulse of the tape, that tail pulse is never ended (its closing edge is dropped).
+\* a zero-length pulse of sample data: merged away, never an edge
+Merged(s) == s[3] = "d" /\ s[2] = 0
 LastTail(segs) == IF \E k \in 1..Len(segs) : segs[k][3] = "t"
                   THEN CHOOSE k \in 1..Len(segs) : segs[k][3] = "t" /\ \A j \in (k + 1)..Len(segs) : segs[j][3] # "t"
                   ELSE 0
 FinalTailDropped(segs) ==
   LET k == LastTail(segs) IN
   k > 0 /\ \A j \in (k + 1)..Len(segs) : segs[j][3] = "w" /\ segs[j][1] = 1 - segs[k][1]
-FiniteSegs(segs) == IF FinalTailDropped(segs) THEN SubSeq(segs, 1, LastTail(segs) - 1) ELSE segs
+\* (when merged zero-length pulses of sample data follow the last tail pulse as well, whether its closing
+\* edge is dropped depends on the bookkeeping of the generator; the specification then allows both)
+FinalTailEither(segs) ==
+  LET k == LastTail(segs) IN
+  k > 0 /\ ~FinalTailDropped(segs) /\ \A j \in (k + 1)..Len(segs) : Merged(segs[j]) \/ segs[j][3] = "w"
+\* the open tail pulse still begins (a change of level delimits what precedes it) but has no length
+OpenTail(segs) == LET k == LastTail(segs) IN Append(SubSeq(segs, 1, k - 1), <<segs[k][1], 0, "t">>)
+FiniteSegs(segs) == IF FinalTailDropped(segs) THEN OpenTail(segs) ELSE segs
 \* level at which block i starts unless it states one (i = Len(blocks) + 1: level the tape ends at)
 RECURSIVE EntryLevel(_, _, _)
 EntryLevel(blocks, i, gpol) ==
@@ -124,11 +133,23 @@ EdgeFinalLevel(edges) == (Len(edges) - 1) % 2
 Monotone(edges) == \A k \in 1..(Len(edges) - 1) : edges[k] <= edges[k + 1]
 
 \* the signal the tape specifies (finite part) and the one an edge list plays
-\* silence that no pulse follows is not delimited by an edge; the leading silence always is
+\* Which part of the specified signal an edge list can show: silence is delimited only by a later change of
+\* level; a zero-length pulse of sample data ("d" of duration 0) is merged away and delimits nothing, whereas
+\* a zero-length pulse of a tone is played as two edges.  So trailing merged pulses and the trailing silence
+\* at one level are not part of what is compared; the leading silence always is.
+RECURSIVE DropMerged(_)
+DropMerged(segs) == IF Len(segs) > 1 /\ Merged(Last(segs)) THEN DropMerged(Front(segs)) ELSE segs
 RECURSIVE TrimLevel(_, _)
-TrimLevel(segs, lv) == IF Len(segs) > 1 /\ Last(segs)[3] = "w" /\ Last(segs)[1] = lv THEN TrimLevel(Front(segs), lv) ELSE segs
-TrimSilence(segs) == TrimLevel(segs, Last(segs)[1])
+TrimLevel(segs, lv) ==
+  IF Len(segs) > 1 /\ Merged(Last(segs)) THEN TrimLevel(Front(segs), lv)
+  ELSE IF Len(segs) > 1 /\ Last(segs)[3] = "w" /\ Last(segs)[1] = lv THEN TrimLevel(Front(segs), lv)
+  ELSE segs
+TrimSilence(segs) == LET s1 == DropMerged(segs) IN TrimLevel(s1, Last(s1)[1])
 ExpectedSignal(blocks, fe, gpol) == Canon(TrimSilence(FiniteSegs(TapeSegs(blocks, fe, gpol))))
+ExpectedSignals(blocks, fe, gpol) ==
+  LET segs == TapeSegs(blocks, fe, gpol) IN
+  IF FinalTailEither(segs) THEN {Canon(TrimSilence(segs)), Canon(TrimSilence(OpenTail(segs)))}
+  ELSE {Canon(TrimSilence(FiniteSegs(segs)))}
 PlayedSignal(edges) == Canon(EdgeSegs(edges))
 
 \* time at which segment k of segs starts
@@ -311,7 +332,7 @@ RangeClause(blocks, fe, gpol, edges, ranges) ==
 PropertyClause(blocks, fe, gpol, edges, ranges) ==
   IF Len(edges) = 0 THEN "no-edges"
   ELSE IF ~Monotone(edges) THEN "monotone"
-  ELSE IF PlayedSignal(edges) # ExpectedSignal(blocks, fe, gpol) THEN "pulses"
+  ELSE IF PlayedSignal(edges) \notin ExpectedSignals(blocks, fe, gpol) THEN "pulses"
   ELSE RangeClause(blocks, fe, gpol, edges, ranges)
 
 \* the same ranges in the generator's format <<n, start, end, bytes?>> -> <<start, end, bytes?, len>>
